@@ -15,3 +15,12 @@ func VerifPListen(ctx context.Context, in chan serf.Event, out chan P2PEvent) {
 	s := &serfNet{eventch: in}
 	s.Listen(ctx, out)
 }
+
+// VerifPShutdown stops the serf instance behind a Membership made by NewSerfNet
+// (Leave alone keeps the memberlist port bound).
+func VerifPShutdown(m Membership) error {
+	if s, ok := m.(*serfNet); ok && s._serf != nil {
+		return s._serf.Shutdown()
+	}
+	return nil
+}
